@@ -16,13 +16,26 @@ position lies above the newest injection that aged out of the window), with F(n)
   was-injected    : was_injected is True for injected IDs still in the window, False for F(n);
                     get_original_id(injected-in-window) raises ValueError
   fresh-injection : gen_injectable_id returns an ID above every wire ID seen so far
+
+CIRCUIT SEAM (second search, same laws observed on the wire): a real ProxiedCircuit with a capturing transport; the
+endpoint's packets go through circuit.send()/drop_message() exactly as the proxy does it, injections are synthetic
+circuit.send()s, and the laws are evaluated on the packet IDs of the captured datagrams (each datagram carries a tag
+naming the endpoint ID / injection it came from).  Extra events there: first sight of an ID already flagged RESENT,
+the proxy dropping an endpoint packet ("D"), an addon take()ing it and re-injecting the copy ("T"), dropping an
+out-of-order ID ("DO").  This reaches the cooperation between the tracker and prepare_message/drop_message (what is
+tracked as seen, what is recorded as dropped vs injected), which the tracker-only search cannot see.
 """
 from __future__ import annotations
 
 import copy
 from typing import Any, Dict, List
 
-from hippolyzer.lib.proxy.circuit import InjectionTracker
+import struct
+
+from hippolyzer.lib.base.message.message import Block, Message
+from hippolyzer.lib.base.message.msgtypes import PacketFlags
+from hippolyzer.lib.base.network.transport import Direction
+from hippolyzer.lib.proxy.circuit import InjectionTracker, ProxiedCircuit
 
 from hmc import explore
 from hmc.core import Run
@@ -153,10 +166,206 @@ class Harness:
                 pass
 
 
+
+class _Transport:
+    def __init__(self):
+        self.sent = []
+
+    def send_packet(self, packet):
+        self.sent.append((bytes(packet.data), packet.direction))
+
+
+INJ_TAG = 0x80000000
+
+
+class CWorld:
+    def __init__(self, maxlen: int):
+        self.tp = _Transport()
+        self.c = ProxiedCircuit(("127.0.0.1", 1), ("127.0.0.1", 2), self.tp)
+        self.c.out_injections = InjectionTracker(0, maxlen=maxlen)
+        self.maxlen = maxlen
+        self.sent: Dict[int, int] = {}      # endpoint id -> wire id at first forward
+        self.injected: List[int] = []       # wire ids of proxy-made OUT packets, in order
+        self.dropped: List[int] = []        # endpoint ids dropped (never forwarded at that time)
+        self.max_sent = 0
+        self.max_wire = 0
+        self.n_inj = 0
+        self.oos: set = set()               # endpoint ids that were out of scope when first forwarded (never asserted)
+        self.violations: List[Dict[str, Any]] = []
+
+
+class CircuitHarness:
+    """Same laws, observed on captured datagrams of a real ProxiedCircuit (direction OUT = viewer -> simulator)."""
+    copyable = False
+
+    def __init__(self, maxlen: int):
+        self.maxlen = maxlen
+
+    def fresh(self) -> CWorld:
+        return CWorld(self.maxlen)
+
+    def enabled(self, w: CWorld):
+        evs = [("S", 0), ("S", 1), ("I",), ("G", 1), ("D", 0), ("D", 1), ("T", 1)]
+        for n in range(1, w.max_sent + 1):
+            evs.append(("O", n, 0))
+            if n not in w.sent:
+                evs.append(("O", n, 1))     # late first sight of a hole, flagged RESENT
+                evs.append(("DO", n))
+        return evs
+
+    def deviation(self, ev) -> int:
+        return 0 if ev in (("S", 0), ("I",)) else 1
+
+    def canon(self, w: CWorld):
+        t, ti = w.c.out_injections, w.c.in_injections
+        return (tuple(t.injections), t._injection_base, t._packet_id_base, tuple(t.dropped),
+                tuple(ti.injections), ti._packet_id_base,
+                tuple(sorted(w.sent.items())), tuple(w.injected), tuple(w.dropped), w.max_sent, tuple(sorted(w.oos)))
+
+    def nontrivial(self, w: CWorld, hist):
+        if w.injected and w.dropped:
+            return self.canon(w)
+        return None
+
+    def observe(self, w: CWorld):
+        return (tuple(sorted(w.sent.values())), tuple(w.injected), tuple(w.dropped))
+
+    @staticmethod
+    def _msg(tag: int, packet_id, flags: int) -> Message:
+        return Message("TeleportStart", Block("Info", TeleportFlags=tag), packet_id=packet_id, flags=flags, direction=Direction.OUT)
+
+    @staticmethod
+    def _decode(data: bytes):
+        flags, pid, off = struct.unpack(">BIB", data[:6])
+        body = data[6 + off:]
+        if body[:4] == b"\xff\xff\xff\xfb":
+            return ("ack", pid, None)
+        tag = struct.unpack("<I", body[4:8])[0]
+        return ("data", pid, tag)
+
+    def step(self, w: CWorld, ev):
+        kind = ev[0]
+        before = len(w.tp.sent)
+
+        def bad(clause, site, detail):
+            w.violations.append({"clause": clause, "site": site, "detail": detail})
+
+        try:
+            if kind == "I":
+                w.n_inj += 1
+                w.c.send(self._msg(INJ_TAG | w.n_inj, None, 0))
+            else:
+                if kind in ("S", "D", "T"):
+                    n = w.max_sent + 1
+                elif kind == "G":
+                    n = w.max_sent + 1 + ev[1]
+                else:
+                    n = ev[1]
+                flags = 0
+                if kind in ("S", "O") and ev[-1] == 1:
+                    flags |= int(PacketFlags.RESENT) | int(PacketFlags.RELIABLE)
+                if kind in ("D", "T") and ev[1] == 1:
+                    flags |= int(PacketFlags.RELIABLE)
+                msg = self._msg(n, n, flags)
+                w.max_sent = max(w.max_sent, n)
+                if kind in ("D", "DO"):
+                    w.c.drop_message(msg)
+                    w.dropped.append(n)
+                elif kind == "T":
+                    copy_ = msg.take()
+                    w.c.drop_message(msg)
+                    w.dropped.append(n)
+                    w.n_inj += 1
+                    copy_["Info"]["TeleportFlags"] = INJ_TAG | w.n_inj
+                    w.c.send(copy_)
+                else:
+                    w.c.send(msg)
+        except Exception as e:
+            bad("exception", f"ProxiedCircuit:{kind}", f"{type(e).__name__}: {e}")
+            return
+        # scope (as in the tracker search): laws are asserted for endpoint IDs whose wire position lies above the newest
+        # injection that has aged out of the tracker's window at the time of the step
+        pre_inj = list(w.injected)
+        ev_list = pre_inj[:-self.maxlen] if len(pre_inj) > self.maxlen else []
+        newest_evicted = ev_list[-1] if ev_list else 0
+
+        def ref_wire(n: int) -> int:
+            k, x, inj = 0, 0, set(pre_inj)
+            while k < n:
+                x += 1
+                if x not in inj:
+                    k += 1
+            return x
+
+        for data, direction in w.tp.sent[before:]:
+            if direction != Direction.OUT:
+                continue
+            what, wire, tag = self._decode(data)
+            if what != "data":
+                continue
+            if tag & INJ_TAG:
+                if wire <= w.max_wire or wire in w.sent.values() or wire in w.injected:
+                    bad("fresh-injection", "ProxiedCircuit.send:injected",
+                        f"injected packet went out as wire id {wire}, not above every wire id used so far (max {w.max_wire}, "
+                        f"forwarded {sorted(w.sent.values())}, injected {w.injected})")
+                w.injected.append(wire)
+            else:
+                n = tag
+                if (w.sent.get(n) or ref_wire(n)) <= newest_evicted:
+                    w.sent.setdefault(n, wire)      # out of scope: older than an evicted injection (bounded memory)
+                    w.oos.add(n)
+                    w.max_wire = max(w.max_wire, wire)
+                    continue
+                if n in w.sent and w.sent[n] != wire:
+                    bad("stable", "ProxiedCircuit.send:forwarded", f"endpoint id {n} first went out as {w.sent[n]}, now as {wire}")
+                if n not in w.sent:
+                    for m, wm in w.sent.items():
+                        if wm == wire:
+                            bad("injective", "ProxiedCircuit.send:forwarded", f"endpoint ids {m} and {n} both went out as wire id {wire}")
+                    if wire in w.injected:
+                        bad("avoid-injected", "ProxiedCircuit.send:forwarded", f"endpoint id {n} went out as wire id {wire}, used for an injected packet")
+                    w.sent[n] = wire
+            w.max_wire = max(w.max_wire, wire)
+        self.oracle(w, bad)
+
+    def oracle(self, w: CWorld, bad):
+        t = w.c.out_injections
+        evicted = w.injected[:-self.maxlen] if len(w.injected) > self.maxlen else []
+        newest_evicted = evicted[-1] if evicted else 0
+        window = w.injected[len(evicted):]
+        inj_all = set(w.injected)
+        prev = None
+        for n in sorted(w.sent):
+            wire = w.sent[n]
+            if wire <= newest_evicted or n in w.oos:
+                prev = None
+                continue
+            if prev is not None and not prev[1] < wire:
+                bad("order", "ProxiedCircuit.send:forwarded", f"id {prev[0]} -> wire {prev[1]} but id {n} -> wire {wire}")
+            prev = (n, wire)
+            if wire in inj_all:
+                continue
+            try:
+                back = t.get_original_id(wire)
+            except Exception as e:
+                back = repr(e)
+            if back != n:
+                bad("inverse", "InjectionTracker.get_original_id", f"wire {wire} carried endpoint id {n}, translated back to {back}")
+            if t.was_injected(wire):
+                bad("was-injected", "InjectionTracker.was_injected", f"wire {wire} (endpoint id {n}) reported as injected")
+        for x in window:
+            if x in w.sent.values():
+                continue
+            if not t.was_injected(x):
+                bad("was-injected", "InjectionTracker.was_injected", f"injected wire id {x} (in window) not reported as injected")
+
+
 def run(run: Run):
     depth = 8 if run.tier == "quick" else 10
     devb = 3 if run.tier == "quick" else 4
-    run.rule = ("explicit-state BFS over {S, G(1|2), O(n), I} on the real InjectionTracker with window maxlen in {1,2,3}; "
+    run.rule = ("explicit-state BFS over {S, G(1|2), O(n), I} on the real InjectionTracker with window maxlen in {1,2,3}, plus a second "
+                "search over {S, S-first-sight-RESENT, G, O(n), O(n)-RESENT, I, D(rop), T(ake+reinject), DO(n)} on a real ProxiedCircuit "
+                "(tracker window 2 and 10000) observing packet ids on the captured datagrams; "
                 "states deduplicated on (injections, bases, first-translation map, all-time injections); non-trivial = "
                 "distinct states in which some sent ID has a later injection above it (lookups below the newest injection)")
     run.assumptions += ["packet-id wrap-around excluded (documented unsupported)",
@@ -168,20 +377,32 @@ def run(run: Run):
         last = h
     for v in run.violations:  # attach the window size to every witness, then shrink
         pass
+    cdepth = 6 if run.tier == "quick" else 7
+    cdev = 3 if run.tier == "quick" else 4
+    for maxlen in (2, 10000):
+        explore.bfs(run, CircuitHarness(maxlen), depth=cdepth, dev_bound=cdev, label=f"circuit maxlen={maxlen} ")
     run.coverage_extra["depth"] = depth
     run.coverage_extra["deviation_bound"] = devb
+    run.coverage_extra["circuit_depth"] = cdepth
+    run.coverage_extra["circuit_deviation_bound"] = cdev
     # minimise witnesses (needs the right window size: recover it by trying each)
     for v in run.violations:
         hist = v["witness"]["history"]
-        for maxlen in (1, 2, 3):
-            h = Harness(maxlen)
-            got = explore.replay_history(h, hist)
+        seam = "circuit" if v["site"].startswith("ProxiedCircuit") or any(len(e) and e[0] in ("D", "T", "DO") or (e[0] in ("S", "O") and len(e) > (1 if e[0] == "S" else 2)) for e in hist) else "tracker"
+        cands = [("circuit", CircuitHarness(m), m) for m in (2, 10000)] if seam == "circuit" else [("tracker", Harness(m), m) for m in (1, 2, 3)]
+        for kind, h, maxlen in cands:
+            try:
+                got = explore.replay_history(h, hist)
+            except Exception:
+                continue
             if any(g["clause"] == v["clause"] for g in got):
                 small = explore._minimise_tuples(h, hist, v["clause"], v["site"])
-                v["witness"] = {"maxlen": maxlen, "history": [list(e) for e in small]}
+                v["witness"] = {"seam": kind, "maxlen": maxlen, "history": [list(e) for e in small]}
                 break
 
 
 def replay(witness):
+    if witness.get("seam") == "circuit":
+        return explore.replay_history(CircuitHarness(int(witness.get("maxlen", 2))), witness["history"])
     h = Harness(int(witness.get("maxlen", 3)))
     return explore.replay_history(h, witness["history"])
